@@ -877,48 +877,6 @@ Qed.
 
 (* ---- the domain of the whole-file theorem beyond wf_ast ---- *)
 
-(* F9 (known finding): a DST-rule footer behind a last transition before 1970 (or none) *)
-Definition not_f9 (a : ast) : bool :=
-  match footer_kind_of a with
-  | FRule _ => match rev (a_times a) with lt :: _ => 0 <=? lt | [] => false end
-  | _ => true
-  end.
-
-(* (R1, the former clause no_dup_info, is no longer needed: EquivTransitions compares the
-   abbreviation text, so two types with the same designation are equivalent whatever their
-   abbreviation indices - see equiv_same_info and r1_duplicate_designation_now_accepted.) *)
-
-(* R4: the 8-bit index space of GetTransitionType *)
-Definition index_space_ok (h : header) (a : ast) : bool :=
-  match a_footer a with
-  | [] => true
-  | f => match posix_spec f with
-         | Some p => (h_typecnt h <=? 254) && (h_charcnt h + Z.of_nat (length (std_abbr p)) + 1 <=? 255)
-         | None => true
-         end
-  end.
-
-(* R2: the footer's offsets are above -24h like the file's (the seam of two days is then enough) *)
-Definition footer_offsets_ok (a : ast) : bool :=
-  match footer_kind_of a with
-  | FRule r => (-86400 <? fst (fst (r_std r))) && (-86400 <? fst (fst (r_dst r)))
-  | _ => true
-  end.
-
-(* R3: every rule instant of year Y lies inside UTC year Y, a day clear of both New Years *)
-Definition rule_tame_y (r : rule) (Y : Z) : bool :=
-  (86400 * days_from_civil Y 1 1 + 86400 <=? rule_start r Y) &&
-  (rule_start r Y + 86400 <=? 86400 * days_from_civil (Y + 1) 1 1) &&
-  (86400 * days_from_civil Y 1 1 + 86400 <=? rule_end r Y) &&
-  (rule_end r Y + 86400 <=? 86400 * days_from_civil (Y + 1) 1 1).
-Definition rule_tame (a : ast) : bool :=
-  match footer_kind_of a with
-  | FRule r => forallb (rule_tame_y r) (zrange 2000 400)
-  | _ => true
-  end.
-
-Definition c01_domain (h : header) (a : ast) : bool :=
-  not_f9 a && index_space_ok h a && footer_offsets_ok a && rule_tame a.
 
 (* ---- wf_ast, unpacked ---- *)
 Record wfp (h : header) (a : ast) : Prop := mkWFP {
@@ -1120,13 +1078,6 @@ Definition last_pair (a : ast) : Z * Z :=
   | _, _ => (big_bang, 0)
   end.
 
-Definition file_pairs (a : ast) : list (Z * Z) := combine (a_times a) (a_idx a).
-
-Definition bb_pairs (a : ast) : list (Z * Z) :=
-  match a_times a with
-  | [] => [(big_bang, 0)]
-  | t0 :: _ => if 0 <=? t0 then [(big_bang, 0)] else []
-  end.
 
 Definition trans1_of (a : ast) : list transition := map mk_tr0 (bb_pairs a ++ file_pairs a).
 
